@@ -49,26 +49,48 @@ Proof. vm_compute. auto. Qed.
 
 (* 2. the tags of requests still awaiting a reply - computed from the wire
    history alone: frames written minus tags answered, so abandoned calls stay
-   in - are pairwise distinct and never NOTAG, after ANY event list *)
+   in - are never NOTAG after ANY event list, and pairwise distinct after any
+   event list in which the peer answers only requests it has received and not
+   yet answered ("any order in which the server answers them").
+   [honest_peer] cannot be dropped: the loop enters a tag into `outstanding`
+   when it QUEUES the frame; a peer that sends a reply carrying the tag of a
+   frame still queued gets that tag released and re-issued while the first
+   frame is yet to be written (see C05_distinct_needs_honest_peer). *)
 Theorem C05_distinct : forall evs,
-  List.NoDup (awaiting (wire_of evs)) /\ ~ In NOTAG (awaiting (wire_of evs)).
+  honest_peer evs -> List.NoDup (awaiting (wire_of evs)).
 Proof. exact awaiting_distinct. Qed.
 
+Theorem C05_never_notag : forall evs, ~ In NOTAG (awaiting (wire_of evs)).
+Proof. exact never_notag. Qed.
+
 Example C05_distinct_nonvacuous :
-  awaiting (wire_of [EReq 1 120 true; EReq 2 116 true; ECancel 1; EReq 3 110 false;
-                     EReq 4 124 true; EResp 2 {| r_type := 117; r_id := 9 |}]) = [4; 1].
+  let evs := [EReq 1 120; EReq 2 116; EHand; EWrote; ECancel 1; EHand; EWrote;
+              EReq 3 110; EHand; EWriteFailed; EReq 4 124; EHand; EWrote;
+              EResp 2 {| r_type := 117; r_id := 9 |}] in
+  honest_peer evs /\ awaiting (wire_of evs) = [4; 1].
+Proof. vm_compute. repeat split; auto 6. Qed.
+
+Example C05_distinct_needs_honest_peer :
+  awaiting (wire_of [EReq 1 120; EResp 1 {| r_type := 121; r_id := 0 |}; EHand; EWrote;
+                     EReq 2 120; EReq 3 120; EResp 2 {| r_type := 121; r_id := 0 |};
+                     EHand; EWrote; EHand; EWrote]) = [3; 2; 1].
 Proof. vm_compute. reflexivity. Qed.
 
 (* 3. a reply handed to call c is the payload of a reply frame whose tag is
-   the tag of c's own request frame, sent after that frame and before any
-   other reply with that tag was taken *)
+   the tag given to c when its request was taken ([req_allocates]), sent
+   after that and before any other reply with that tag was taken; and the
+   request frame of c that goes onto the wire carries exactly that tag *)
 Theorem C05_own_reply : forall evs c r,
   In (ODeliver c r) (trace evs) ->
   exists evs1 evs2 evs3 t mt,
-    evs = evs1 ++ EReq c mt true :: evs2 ++ EResp t r :: evs3 /\
-    snd (hstep (fst (run evs1)) (EReq c mt true)) = [OFrame t c mt] /\
-    no_resp t evs2.
+    evs = evs1 ++ EReq c mt :: evs2 ++ EResp t r :: evs3 /\
+    req_allocates (fst (run evs1)) t /\ no_resp t evs2.
 Proof. exact own_reply. Qed.
+
+Theorem C05_frame_tag : forall evs t c mt,
+  In (OFrame t c mt) (trace evs) ->
+  exists evs1 evs2, evs = evs1 ++ EReq c mt :: evs2 /\ req_allocates (fst (run evs1)) t.
+Proof. exact frame_origin. Qed.
 
 (* ... and while the loop runs a reply whose tag is outstanding is handed over at once *)
 Theorem C05_reply_delivered : forall st t r c,
@@ -77,14 +99,15 @@ Theorem C05_reply_delivered : forall st t r c,
 Proof. exact resp_delivered. Qed.
 
 (* each call (distinct sends are distinct fcallRequests) is handed at most one
-   item over its two channels together: it returns at most one reply / error *)
+   reply and at most one error: it cannot return two different replies *)
 Theorem C05_once : forall evs,
-  List.NoDup (req_calls evs) -> List.NoDup (dcalls (trace evs)).
+  List.NoDup (req_calls evs) ->
+  List.NoDup (rcalls (trace evs)) /\ List.NoDup (ecalls (trace evs)).
 Proof. exact delivered_once. Qed.
 
 Example C05_own_reply_nonvacuous :
-  trace [EReq 1 120 true; EReq 2 116 true; EResp 2 {| r_type := 117; r_id := 9 |};
-         EResp 1 {| r_type := 107; r_id := 5 |}]
+  trace [EReq 1 120; EReq 2 116; EHand; EWrote; EHand; EWrote;
+         EResp 2 {| r_type := 117; r_id := 9 |}; EResp 1 {| r_type := 107; r_id := 5 |}]
   = [OFrame 1 1 120; OFrame 2 2 116; ODeliver 2 {| r_type := 117; r_id := 9 |};
      ODeliver 1 {| r_type := 107; r_id := 5 |}].
 Proof. vm_compute. reflexivity. Qed.
@@ -108,8 +131,11 @@ Print Assumptions C05_alloc_complete.
 Print Assumptions C05_alloc_first.
 Print Assumptions C05_alloc_wraps_past_NOTAG.
 Print Assumptions C05_distinct.
+Print Assumptions C05_never_notag.
 Print Assumptions C05_distinct_nonvacuous.
+Print Assumptions C05_distinct_needs_honest_peer.
 Print Assumptions C05_own_reply.
+Print Assumptions C05_frame_tag.
 Print Assumptions C05_reply_delivered.
 Print Assumptions C05_once.
 Print Assumptions C05_own_reply_nonvacuous.
